@@ -1,4 +1,5 @@
 import AasVerif.Lemmas.SdkDescendGen
+import AasVerif.Model.SdkCtor
 import AasVerif.Gen.SdkDescend
 /-!
 # C29 — Python SDK traversal and accessors are complete
@@ -160,6 +161,72 @@ theorem hasOverOrEmpty_iff (t : Ty) : hasOverOrEmpty t = true ↔ ∃ u, t = .op
     | _ => simp [hasOverOrEmpty] at h
   · rintro ⟨u, rfl⟩; rfl
 
+/-! ## Constructors with declared defaults; completeness of the visitor / transformer classes
+(`Model/SdkCtor.lean`, added after the seeded changes C29-5 / C29-6) -/
+
+section Ctor
+open AasVerif.SdkCtor
+
+/-- The written assignment gives the property the argument, or the DECLARED default (an empty list / the
+enumeration literal of THIS statement) when the argument is `None`. -/
+theorem ctor_assign_spec (p a : Name) (d : Option DefaultCode) (v : Val) :
+    execStmt (renderStmt (.assign p a d)) v = some (p, declared d v) := by
+  cases d with
+  | none => cases v <;> rfl
+  | some c => cases c <;> cases v <;> rfl
+
+/-- Every constructor statement is rendered on its own: statement `i` of the generated body is the rendering of
+statement `i` of the meta-model, whatever stands before it (in particular an enumeration-literal default
+before an empty-list default changes nothing). -/
+theorem ctor_body_pointwise (ss : List Stmt) (i : Nat) :
+    (renderBody ss)[i]? = (ss[i]?).map renderStmt := by
+  induction ss generalizing i with
+  | nil => simp [renderBody]
+  | cons s ss ih =>
+    cases i with
+    | zero => simp [renderBody]
+    | succ i => simpa [renderBody] using ih i
+
+/-- the default written for a property is the one declared for it, after any statements -/
+theorem ctor_default_after_any_prefix (pre post : List Stmt) (p a : Name) (d : Option DefaultCode) (v : Val) :
+    ((renderBody (pre ++ .assign p a d :: post))[pre.length]?).bind (fun s => execStmt s v) = some (p, declared d v) := by
+  rw [ctor_body_pointwise]
+  simp [ctor_assign_spec]
+
+example : renderBody [.assign [103] [103] (some (.enumLiteral [67] [66])), .assign [116] [116] (some .emptyList)]
+    = [.setOrDefault [103] [103] (.enumLiteral [67] [66]), .setOrDefault [116] [116] .emptyList] := rfl
+
+/-- The method an instance's `accept…` / `transform…` calls is DECLARED by each of the eight generated visitor /
+transformer classes of that kind (they loop over all concrete classes of the symbol table). -/
+theorem dispatch_target_declared (mm : MM) (d : Dispatcher) (c : Name) (mro : List Name) (n : Name)
+    (h : dispatch mm d.kind c mro = some n) : n ∈ declaredMethods mm d := by
+  unfold dispatch at h
+  cases hf : (c :: mro).find? (definesDispatch mm) with
+  | none => simp [hf] at h
+  | some x =>
+    simp only [hf, Option.map_some, Option.some.injEq] at h
+    have hx : definesDispatch mm x = true := List.find?_some hf
+    unfold definesDispatch at hx
+    cases hc : mm.findClass x with
+    | none => simp [hc] at hx
+    | some cd =>
+      simp only [hc] at hx
+      have hmem : cd ∈ mm.classes := List.mem_of_find?_eq_some (by simpa [MM.findClass] using hc)
+      have hname : cd.name = x := by
+        have := List.find?_some (by simpa [MM.findClass] using hc : mm.classes.find? (fun d => d.name == x) = some cd)
+        simpa using this
+      subst h
+      unfold declaredMethods concreteClasses
+      refine List.mem_map.mpr ⟨cd, List.mem_filter.mpr ⟨hmem, by simpa using hx⟩, by rw [hname]⟩
+
+/-- For every conforming instance and every generated visitor / transformer class: the class declares the
+method of the instance's CONCRETE class. -/
+theorem dispatchers_complete (mm : MM) (i : Val) (h : Conforms mm i) (d : Dispatcher) :
+    methodName d.kind i.classOf ∈ declaredMethods mm d :=
+  dispatch_target_declared mm d i.classOf [] _ (dispatch_concrete mm i h d.kind [])
+
+end Ctor
+
 /-! ## Tie to the source: the regenerated skeleton (`Gen/SdkDescend.lean`) -/
 
 /-- The statement templates of `_DescendBodyUnroller` are the five statement forms of `SdkDescend.Node`
@@ -183,6 +250,26 @@ theorem dispatchers_are :
        ("transform", "return transformer.{transform_name}(self)"),
        ("transform_with_context", "return transformer.{transform_with_context_name}(self, context)")] ∧
     Gen.SdkDescend.dispatchersOnlyForConcrete = true := by
+  decide
+
+/-- `_generate_constructor`: the three assignment templates (plain, ternary with `[]`, ternary with the code of the
+enumeration literal) and the order of the `isinstance(stmt.default, …)` tests; the eight visitor / transformer
+generators loop over `symbol_table.concrete_classes` -/
+theorem ctor_templates_are :
+    Gen.SdkDescend.ctorAssignments =
+      ["self.{python_naming.property_name(stmt.name)} = {python_naming.argument_name(stmt.argument)}",
+       "self.{python_naming.property_name(stmt.name)} = (|{arg_name}|if {arg_name} is not None|else []|)",
+       "self.{python_naming.property_name(stmt.name)} = (|{arg_name}|if {arg_name} is not None|else {literal_code}|)"] ∧
+    Gen.SdkDescend.ctorDefaultTests = ["EmptyList", "DefaultEnumLiteral"] ∧
+    Gen.SdkDescend.dispatcherLoops =
+      [("_generate_abstract_visitor", "symbol_table.concrete_classes"),
+       ("_generate_abstract_visitor_with_context", "symbol_table.concrete_classes"),
+       ("_generate_pass_through_visitor", "symbol_table.concrete_classes"),
+       ("_generate_pass_through_visitor_with_context", "symbol_table.concrete_classes"),
+       ("_generate_abstract_transformer", "symbol_table.concrete_classes"),
+       ("_generate_abstract_transformer_with_context", "symbol_table.concrete_classes"),
+       ("_generate_transformer_with_default", "symbol_table.concrete_classes"),
+       ("_generate_transformer_with_default_and_context", "symbol_table.concrete_classes")] := by
   decide
 
 theorem over_guard_is :
